@@ -31,7 +31,8 @@ def main():
             if r["exit"] == "not-applicable":
                 how = "patch does not apply to the current tree"
             out.append(f"| {cid} | `{name}` | {how if ok else (how if r['exit'] == 'not-applicable' else 'MISSED (exit %s)' % r['exit'])} | {cl[:160]} |")
-    out.append(f"\n{det} of {tot} own mutants caught by the quick tier of the check they target.\n")
+    th = sum(1 for cid in sens for n, r in sens[cid].items() if n != "unmodified" and r.get("tier") == "thorough" and r["exit"] == 1)
+    out.append(f"\n{det} of {tot} own mutants caught by the check they target ({det - th} by the quick tier, {th} only by the thorough tier).\n")
     out.append("### 14.2 Changes written by sub-agents (saw only the property text and a scratch worktree)\n")
     out.append("Each change was confirmed in the agent's worktree (applies, 77 tests pass with it, its demo fails "
                "with it and passes without it), then the quick check(s) were run on a scratch copy of /repo with the "
